@@ -36,6 +36,17 @@ pub fn output_tokens_for_impl(
         .map(|segment| segment.span())
         .unwrap_or_else(proc_macro2::Span::call_site);
 
+    // The generic arguments of the implemented trait (`<EntraitT, ..>`) are generated,
+    // there is no place to merge written ones into.
+    if let Some(segment) = trait_path.segments.last() {
+        if !segment.arguments.is_none() {
+            return Err(syn::Error::new(
+                segment.arguments.span(),
+                "Generic arguments on the implemented trait are not supported here",
+            ));
+        }
+    }
+
     let mut generics_analyzer = analyze_generics::GenericsAnalyzer::new();
     let trait_fns = items
         .iter()
